@@ -449,6 +449,14 @@ func replay(w *World, vc *FuncVC, o *Obligation, m map[string]rawVal, scratch st
 			ov["Replace"][f] = genTmp
 		}
 	}
+	nst := 0
+	for f, b := range w.Stubs {
+		// contract files that do not compile are replaced by their stubs for the replay build too
+		tmp := filepath.Join(scratch, fmt.Sprintf("stub%d.go", nst))
+		nst++
+		os.WriteFile(tmp, b, 0o644)
+		ov["Replace"][f] = tmp
+	}
 	testTmp := filepath.Join(scratch, "zz_verif_replay_test.go")
 	os.WriteFile(testTmp, src.Bytes(), 0o644)
 	ov["Replace"][filepath.Join(pkgDir, "zz_verif_replay_test.go")] = testTmp
